@@ -98,3 +98,46 @@ def n_leaves(tree):
     if tree['type'] == 'leaf':
         return 1
     return n_leaves(tree['left']) + n_leaves(tree['right'])
+
+
+def perturb_history(model, seed, d, calls=6):
+    """Object history before a judged call: public API calls on OTHER rows (tensors and arrays, batches of several rows and of
+    one row, the same container refilled in place), state export.  What a fitted model answers for a row is a function of its
+    stored state and of that row, so none of this may show in the judged call.  Results are discarded; an exception raised here
+    is swallowed (every API is judged on its own elsewhere)."""
+    import contextlib
+    import io
+    import numpy as np
+    import torch
+    g = torch.Generator().manual_seed(int(seed) + 77)
+    is_class = getattr(model, 'n_classes_', 0) > 0
+    buf = torch.randn(5, d, generator=g, dtype=torch.float32)
+    nbuf = buf.numpy().copy()
+    done = []
+    with contextlib.redirect_stdout(io.StringIO()), contextlib.redirect_stderr(io.StringIO()):
+        for k in range(calls):
+            kind = int(torch.randint(0, 6, (1,), generator=g))
+            rows = torch.randn(int(torch.randint(1, 6, (1,), generator=g)), d, generator=g, dtype=torch.float32) * (1.0 + 2.0 * (k % 2))
+            try:
+                if kind == 0:
+                    model.predict(rows)
+                elif kind == 1:
+                    model.predict(rows.numpy())
+                elif kind == 2:
+                    (model.predict_proba if is_class else model.predict)(rows[:1])
+                elif kind == 3:
+                    buf.copy_(torch.randn(5, d, generator=g, dtype=torch.float32))
+                    nbuf[:] = buf.numpy()
+                    model.predict(buf)
+                    (model.predict_proba if is_class else model.predict)(nbuf)
+                elif kind == 4:
+                    model.get_state_dict()
+                else:
+                    if not is_class and not model.split_temperature:
+                        model.get_grads(rows)
+                    else:
+                        model.predict(rows)
+                done.append(kind)
+            except Exception:       # noqa: BLE001
+                done.append(-kind - 1)
+    return done
